@@ -244,10 +244,25 @@ namespace net
           prem.push_back(z.zl(l));
       }
       size_t lvl = sat->decision_level();
+      const std::vector<lit> dec_before = sat->get_decisions();
       bool r = sat->check(ls);
       cnt.inc("check");
       if (sat->decision_level() < lvl)
         cnt.inc("probe.check_backjumped_below_start");
+      { // the assumptions of a check are temporary: whatever it answers, no decision may stand afterwards that did not stand before
+        const std::vector<lit> dec_after = sat->get_decisions();
+        bool prefix = dec_after.size() <= dec_before.size();
+        for (size_t i = 0; prefix && i < dec_after.size(); ++i)
+          prefix = dec_after[i] == dec_before[i];
+        if (!prefix && (enabled & (O_N1 | O_N5_BOOL)))
+        {
+          std::string ds;
+          for (auto &l : dec_after)
+            ds += " " + lstr(l);
+          viol(O_N1, "N1", "N1.check_left_assumptions", std::string("check() answered ") + (r ? "true" : "false") + " and left decisions standing that were not there before it was called (level " + std::to_string(lvl) + " -> " + std::to_string(sat->decision_level()) + "):" + ds);
+          return;
+        }
+      }
       std::string s = "check";
       for (auto &l : ls)
         s += " " + lstr(l);
